@@ -166,3 +166,24 @@ Record chain_case := CH { h_topic : N; h_msg : msg; h_nacks : nat; h_got : list 
 Definition chain_violates (c : chain_case) : bool :=
   negb (fanout_monitor (h_topic c) (h_msg c) (S (h_nacks c)) false (h_got c) [] (h_final c)).
 Definition chain_violations (cs : list chain_case) : list nat := positions (map chain_violates cs).
+
+(** ** round "proofs 3": Forwarder / Publisher configuration *)
+From WM Require Import Relay.Config.
+Record fwdcfg_case := FWC {
+  w_dflt : N; w_topic : N; w_timeout : Z;
+  w_obs_topic : N; w_obs_timeout : Z;          (* Config after setDefaults *)
+  w_valid_raw : bool; w_valid_after : bool;     (* Config.Validate before / after *)
+  w_new_ok : bool; w_sub_topic : option N;      (* NewForwarder; topic subscribed to when run *)
+  w_pub_topic : N; w_pub_valid_raw : bool; w_pub_send : N
+}.
+Definition fwdcfg_mismatch (c : fwdcfg_case) : bool :=
+  let raw := FCfg (w_topic c) (w_timeout c) in
+  let d := fwd_set_defaults (w_dflt c) raw in
+  negb ((fc_topic d =? w_obs_topic c) && (fc_timeout d =? w_obs_timeout c)%Z
+        && Bool.eqb (fwd_validate raw) (w_valid_raw c) && Bool.eqb (fwd_validate d) (w_valid_after c)
+        && Bool.eqb (match fst (forwarder_new (w_dflt c) raw) with NewOk => true | _ => false end) (w_new_ok c)
+        && match w_sub_topic c with Some t => snd (forwarder_new (w_dflt c) raw) =? t | None => true end
+        && (publisher_topic (w_dflt c) (w_topic c) =? w_pub_topic c)
+        && Bool.eqb (fwd_validate raw) (w_pub_valid_raw c)
+        && (publisher_topic (w_dflt c) (w_topic c) =? w_pub_send c)).
+Definition fwdcfg_mismatches (cs : list fwdcfg_case) : list nat := positions (map fwdcfg_mismatch cs).
